@@ -17,7 +17,11 @@ EXPLANATION = (
     "writes below a field of self that holds a constructor argument (the domain, the action schema, a state) and no public entry "
     "point writes below one of its parameters. C07.global: no function writes into a module-level mutable object or a mutable "
     "default argument (shared by every instance). C07.escape: an object owned by an operator / grounded effect that the owner "
-    "later mutates in place is never stored into the state handed to it. The verdict is independent of the call history, which is "
+    "later mutates in place is never stored into the state handed to it. C07.evalstate: in GroundedEffect.apply every fluent map that is "
+    "handed to a computation derives, under the valuation 'a pre-state is given', from the pre-state parameter only (the successor under "
+    "construction is write-only, so the effect groups of one operator -- applied in set order -- cannot see each other's writes and "
+    "repeating a call gives the same successor) and, under 'no pre-state', from the only state there is; local names are resolved through "
+    "the definitions that reach along the edges the valuation leaves open. The verdict is independent of the call history, which is "
     "what the property quantifies over; with no library write to shared objects the thread-interleaving clause follows."
 )
 UNDECIDED = ("writes through values of UNKNOWN provenance (counted in evidence); mutation by user code through aliases that remain "
@@ -241,9 +245,154 @@ def rule_escape(repo: Repo, rid: str = "C07.escape", floor: int = 2) -> RuleResu
     return r
 
 
+# C07.evalstate: the effect group that writes the successor; (written state, optional pre-state) are its two parameters.
+# Reason: GroundedEffect objects of one operator are applied in SET order; the result is a function of the call only when every group
+# reads the fluents of the state before the action and only writes the successor.
+EVALSTATE_ANCHOR = "GroundedEffect.apply"
+FLUENT_MAP_FIELD = "state_fluents"      # the field of a State that holds the numeric fluents
+
+
+def rule_evalstate(repo: Repo, rid: str = "C07.evalstate") -> RuleResult:
+    """reads of a fluent map that feed a computation (an argument of a call) inside the effect group: with a pre-state handed in they
+    come from the pre-state (the successor under construction is write-only), without one from the only state there is.  Decided by
+    the provenance of every such argument under the two valuations of `<pre-state> is (not) None`."""
+    from .. import cfg as C
+    r = RuleResult(rid, f"{EVALSTATE_ANCHOR}: when a pre-state is given, fluent values are read from it and never from the successor being written",
+                   "the result of applying an operator does not depend on the (set) order in which its effect groups are applied")
+    f = L.fn(repo, EVALSTATE_ANCHOR)
+    p = L.prov(repo, f)
+    params = [x for x in f.params if x != f.self_name]
+    a = f.node.args
+    pos = a.posonlyargs + a.args
+    defaults = dict(zip([x.arg for x in pos[len(pos) - len(a.defaults):]], a.defaults))
+    defaults.update({k.arg: d for k, d in zip(a.kwonlyargs, a.kw_defaults) if d is not None})
+    optional = [x for x in params if isinstance(defaults.get(x), ast.Constant) and defaults[x].value is None]
+    required = [x for x in params if x not in defaults]
+    if len(optional) != 1 or len(required) != 1:
+        raise AnalysisError(f"{EVALSTATE_ANCHOR}: (written state, optional pre-state) parameters not recognised: {params}")
+    pre, target = optional[0], required[0]
+
+    def tr(e, under=None):
+        try:
+            return p.trace(e, under=under) if under is not None else p.trace(e)
+        except (KeyError, RecursionError):
+            return set()
+
+    def matcher(e):
+        if isinstance(e, ast.Compare) and len(e.ops) == 1:
+            for x, y in ((e.left, e.comparators[0]), (e.comparators[0], e.left)):
+                if isinstance(y, ast.Constant) and y.value is None and tr(x) == {(f"param:{pre}",)}:
+                    if isinstance(e.ops[0], (ast.Is, ast.Eq)):
+                        return "!given"
+                    if isinstance(e.ops[0], (ast.IsNot, ast.NotEq)):
+                        return "given"
+        return None
+
+    def is_env(paths) -> bool:
+        return any(len(x) == 2 and x[1] == f"attr:{FLUENT_MAP_FIELD}" and x[0] in (f"param:{pre}", f"param:{target}") for x in paths)
+
+    G = L.Guards(f, matcher)
+    g = G.g
+    rd = L.rd_of(f)
+
+    def roots_under(e, valuation) -> Set[str]:
+        """roots of the value of `e` under the valuation.  Local names are resolved through the definitions that reach the use along
+        the edges the valuation leaves open only (`x = a; if given: x = b` is `b` when given) -- `Prov.trace(under=)` filters
+        definitions by liveness of their node, not by being overwritten on every open path."""
+        val, seen = G.under(valuation)
+        edges: Set[Tuple[int, int]] = set()
+        C.reach_under(g, val, edges=edges)
+        preds: Dict[int, List[int]] = {}
+        for a_, b_ in edges:
+            preds.setdefault(b_, []).append(a_)
+
+        def open_defs(at: int, name: str) -> Set[int]:
+            allr = rd.defs_reaching(at, name)
+            out, done, stack = set(), set(), list(preds.get(at, []))
+            while stack:
+                u = stack.pop()
+                if u in done:
+                    continue
+                done.add(u)
+                if u in allr:
+                    out.add(u)
+                    continue
+                stack.extend(preds.get(u, []))
+            return out
+
+        def go(x, at: Optional[int], depth: int) -> Set[str]:
+            if depth > 12:
+                return {"?"}
+            if isinstance(x, ast.Attribute):
+                return go(x.value, at, depth + 1)
+            if isinstance(x, ast.IfExp):
+                tv = C.eval3(x.test, val)
+                if tv is not None:
+                    return go(x.body if tv else x.orelse, at, depth + 1)
+                return go(x.body, at, depth + 1) | go(x.orelse, at, depth + 1)
+            if isinstance(x, ast.Name) and at is not None and rd.defs_reaching(at, x.id):
+                out: Set[str] = set()
+                for d in open_defs(at, x.id):
+                    st = g.stmt[d]
+                    if d == g.entry:
+                        out.add(f"param:{x.id}")
+                    elif isinstance(st, ast.Assign) and len(st.targets) == 1 and isinstance(st.targets[0], ast.Name):
+                        out |= go(st.value, d, depth + 1)
+                    elif isinstance(st, ast.AnnAssign) and st.value is not None and isinstance(st.target, ast.Name):
+                        out |= go(st.value, d, depth + 1)
+                    else:
+                        return {y[0] for y in tr(x, (val, seen))}
+                if out:
+                    return out
+            return {y[0] for y in tr(x, (val, seen))}
+
+        return go(e, g.node_containing(e), 0)
+
+    reads = []
+    for c in L.calls_in(f.node):
+        for arg in list(c.args) + [k.value for k in c.keywords]:
+            if is_env(tr(arg)):
+                reads.append((c, arg))
+    r.site(f.qn + " [fluent values read by the effect group]")
+    if not reads:
+        r.ok({"reads_of_a_fluent_map": 0, "note": "no fluent map is handed to a computation: nothing to decide"})
+        r.require_sites(1)
+        return r
+    want = {True: f"param:{pre}", False: f"param:{target}"}
+    for c, arg in reads:
+        r.site(L.site(f, c, "fluent environment"))
+        if "given" not in G.atoms_seen:
+            roots = {x[0] for x in tr(arg)}
+            if roots == {f"param:{target}"}:
+                r.fail(Finding(rid, f, "evaluation-state:pre-state-ignored", f"fluent values are read from the state being written ('{target}') whether or "
+                               f"not the pre-state '{pre}' is given: effect groups see each other's writes", node=c))
+            else:
+                r.ok({"call": L.site(f, c), "note": f"choice between '{pre}' and '{target}' is not a None test: undecided"})
+            continue
+        bad = []
+        for given in (True, False):
+            seen = G.reach({"given": given})
+            n = G.g.node_containing(c)
+            if n is None or n not in seen:
+                continue
+            got = roots_under(arg, {"given": given})
+            if got and got != {want[given]}:
+                bad.append((given, sorted(got)))
+        if not bad:
+            r.ok({"pre_state_given": f"reads {pre}.{FLUENT_MAP_FIELD}", "pre_state_absent": f"reads {target}.{FLUENT_MAP_FIELD}"})
+        for given, got in bad:
+            r.fail(Finding(rid, f, f"evaluation-state:{'given' if given else 'absent'}",
+                           f"with the pre-state {'given' if given else 'absent (None)'} the fluent values are read from {got} instead of "
+                           f"{want[given]}: " + ("effect groups applied earlier (set order) are visible to later ones, repeating the call gives "
+                                                 "different successors" if given else "the absent pre-state is dereferenced"), node=c))
+    r.require_sites(2)
+    return r
+
+
 def rules(repo: Repo, tier: str) -> List[RuleResult]:
     from . import c14, c19
-    return [rule_write(repo), rule_global(repo), rule_escape(repo), c14.rule_copy(repo, "C07.copyfresh"), c19.rule_cache(repo, "C07.cache"), _c20().rule_freshleaf(repo, "C07.freshleaf")]
+    return [rule_write(repo), rule_global(repo), rule_escape(repo), c14.rule_copy(repo, "C07.copyfresh"), c19.rule_cache(repo, "C07.cache"), _c20().rule_freshleaf(repo, "C07.freshleaf"),
+            rule_evalstate(repo)]
 
 
 def _c20():
